@@ -146,15 +146,15 @@ impl DriverSim {
     /// Build a node driver over `root` (like `antnode` does), never running it.
     pub fn new_node(root: &Path, keypair: Keypair, store: Option<(usize, usize)>) -> DriverSim {
         let rt = new_runtime();
-        let (net, events, driver) = {
-            let _g = rt.enter();
+        // inside block_on, so that tasks spawned during construction queue FIFO with later ones
+        let (net, events, driver) = rt.block_on(async {
             set_store_overrides(store);
             let mut b = NetworkBuilder::new(keypair.clone(), true);
             b.listen_addr("127.0.0.1:0".parse::<SocketAddr>().unwrap());
             let r = b.build_node(root.to_path_buf()).expect("build_node");
             set_store_overrides(None);
             r
-        };
+        });
         let peer = PeerId::from(keypair.public());
         DriverSim {
             rt,
@@ -172,12 +172,11 @@ impl DriverSim {
 
     pub fn new_client(keypair: Keypair) -> DriverSim {
         let rt = new_runtime();
-        let (net, events, driver) = {
-            let _g = rt.enter();
+        let (net, events, driver) = rt.block_on(async {
             NetworkBuilder::new(keypair.clone(), true)
                 .build_client()
                 .expect("build_client")
-        };
+        });
         let peer = PeerId::from(keypair.public());
         DriverSim {
             rt,
@@ -205,8 +204,22 @@ impl DriverSim {
     pub fn run_tasks(&mut self, rounds: usize) -> usize {
         let mut got = 0;
         for _ in 0..rounds {
+            // barrier: the scheduler is FIFO, so once this sentinel has run every task spawned
+            // before it has run as well (a plain yield only runs a bounded batch of tasks)
             self.rt.block_on(async {
-                tokio::task::yield_now().await;
+                let done = std::sync::Arc::new(std::sync::atomic::AtomicBool::new(false));
+                let d2 = done.clone();
+                tokio::spawn(async move {
+                    d2.store(true, std::sync::atomic::Ordering::SeqCst);
+                });
+                let mut spins = 0u32;
+                while !done.load(std::sync::atomic::Ordering::SeqCst) {
+                    tokio::task::yield_now().await;
+                    spins += 1;
+                    if spins > 1_000_000 {
+                        panic!("sentinel task never ran");
+                    }
+                }
             });
             got += self.drain();
         }
@@ -254,18 +267,20 @@ impl DriverSim {
     }
 
     /// Handle a local command with the real handler, inside the runtime context (handlers spawn).
+    /// Run `f` on the driver *inside* `block_on`: tasks it spawns then go to the scheduler's local
+    /// FIFO queue (spawns made under a mere `enter()` guard land in the inject queue, which the
+    /// scheduler interleaves arbitrarily with the local one).
+    pub fn with_driver<R>(&mut self, f: impl FnOnce(&mut SwarmDriver) -> R) -> R {
+        let driver = &mut self.driver;
+        self.rt.block_on(async move { f(driver) })
+    }
+
     pub fn handle_local(&mut self, cmd: LocalSwarmCmd) -> Result<(), String> {
-        let _g = self.rt.enter();
-        self.driver
-            .verif_handle_local_cmd(cmd)
-            .map_err(|e| format!("{e:?}"))
+        self.with_driver(|d| d.verif_handle_local_cmd(cmd).map_err(|e| format!("{e:?}")))
     }
 
     pub fn handle_network(&mut self, cmd: NetworkSwarmCmd) -> Result<(), String> {
-        let _g = self.rt.enter();
-        self.driver
-            .verif_handle_network_cmd(cmd)
-            .map_err(|e| format!("{e:?}"))
+        self.with_driver(|d| d.verif_handle_network_cmd(cmd).map_err(|e| format!("{e:?}")))
     }
 
     /// Deliver the i-th buffered completion notification to the real handler.
@@ -327,8 +342,7 @@ impl DriverSim {
 
     pub fn remove(&mut self, key: &RecordKey) {
         use libp2p::kad::store::RecordStore;
-        let _g = self.rt.enter();
-        self.driver.verif_store().remove(key);
+        self.with_driver(|d| d.verif_store().remove(key));
     }
 
     pub fn quoting_metrics(&mut self, key: &RecordKey) -> (ant_evm::QuotingMetrics, bool) {
